@@ -1,5 +1,6 @@
 (* Props/C04.v -- The set of constraint edges is exactly what the caller asked for (partial: counting and non-crossing). *)
 From Coq Require Import ZArith List Bool Arith.
+From SpadeV Require Props.C04b.   (* constraint insertion model: refused additions change nothing, frame, new flags only on the segment *)
 From SpadeV Require Import Geom.Pred Geom.Lemmas Obs.State Obs.Spec Obs.SpecProp Obs.SpecProofs.
 From SpadeV Require Cdt.SegSpec Cdt.SegSpecProofs.
 
